@@ -81,7 +81,7 @@ def shared_obligations(ctx, rule, owners=None, with_expressions=False):
             n += 1
             ctx.ob(rule, o.where, o.ok, o.what, key=o.key, loc=o.loc, detail=o.detail)
             continue
-        if o.rule not in ("C04.R3", "C04.R7", "C04.R8"):
+        if o.rule not in ("C04.R3", "C04.R5", "C04.R7", "C04.R8"):       # R5: the emitter closures the macros patch onto their result
             continue
         owner = str(o.where).split(".")[0]
         if owners is not None and owner not in owners:
